@@ -233,7 +233,9 @@ def r2(ctx):
     import html as _html
     import interp
     f = ctx.prog.fns[fe]
-    probes = ["plain", "a<b", "a>b", "a&b", "<&>", "&lt;", "&amp;lt;", "x < y && y > z", "\"q\" 'r'", "é<"]
+    probes = ["plain", "a<b", "a>b", "a&b", "<&>", "&lt;", "&amp;lt;", "x < y && y > z", "\"q\" 'r'", "é<",
+              # white space is part of the value: runs of blanks, leading / trailing blanks, a tab, a no-break space stay what they are
+              "two  spaces", "three   x", " lead", "trail  ", "tab\tx", "nb\u00a0sp", "-2.5", "=x"]
     evald = {}
     try:
         for pr in probes:
